@@ -24,7 +24,7 @@ func ppChunks(c *Case, pong bool) ([][]byte, *ppMsg) {
 	if c.Kind == "raw" {
 		var ch [][]byte
 		for _, h := range c.Raw {
-			ch = append(ch, unhex(h))
+			ch = append(ch, rawBytes(h))
 		}
 		return ch, nil
 	}
